@@ -57,8 +57,21 @@ for sid in sys.argv[1:]:
             rc, out = sh(f"VERIF_REPO={wt} ./check {pid} --tier quick", cwd=ROOT)
             rec["rc"] = rc
             rec["lines"] = [l[:400] for l in out.splitlines() if l.startswith("VIOLATION") or l.startswith(f"[{pid}] tier=")]
-            rec["wall_s"] = round(time.time() - t0)
+            if not rec["lines"]:
+                rec["tail"] = out[-400:]
             rec["caught"] = rc == 1 and any(l.startswith("VIOLATION") for l in rec["lines"])
+            # the checks of other properties the change was first confirmed with (e.g. a train_bpe change seeded for C02
+            # is a C19 violation; a panic-handling change seeded for C05 a C09 violation)
+            for other in [c for c in ((meta.get("confirmation") or {}).get("checks") or {}) if c != pid]:
+                if rec["caught"]:
+                    break
+                rc2, out2 = sh(f"VERIF_REPO={wt} ./check {other} --tier quick", cwd=ROOT)
+                l2 = [l[:400] for l in out2.splitlines() if l.startswith("VIOLATION") or l.startswith(f"[{other}] tier=")]
+                rec["lines"] += l2
+                rec["caught"] = rc2 == 1 and any(l.startswith("VIOLATION") for l in l2)
+                if rec["caught"]:
+                    out = out2
+            rec["wall_s"] = round(time.time() - t0)
             m = re.search(r"replay=(\S+)", out)
             if m and os.path.exists(m.group(1)):
                 rp = json.load(open(m.group(1)))
